@@ -24,6 +24,7 @@ type specEnv struct {
 	st, old   *state
 	pkg       *types.Package
 	bound     []map[string]sval
+	locals    bool // named local variables of the function under verification are visible
 }
 
 func (vc *VC) pkgTypes(path string) *types.Package {
@@ -53,6 +54,7 @@ func (vc *VC) envAt(st, old *state) *specEnv {
 // envHere: envAt plus the loop variables visible at the current block.
 func (vc *VC) envHere(st *state) *specEnv {
 	env := vc.envAt(st, vc.entry)
+	env.locals = true
 	if vc.cur == nil {
 		return env
 	}
@@ -193,6 +195,19 @@ func (vc *VC) trIdent(e *EIdent, env *specEnv, c *Clause) sval {
 		}
 		k := vc.cellKey(t)
 		return sval{term: fmt.Sprintf("(select %s %s)", env.st.get(k), cell.term), typ: t}
+	}
+	if env.locals {
+		// named local variable: the most recent definition that dominates the current block
+		refs := vc.localRefs[e.Name]
+		for i := len(refs) - 1; i >= 0; i-- {
+			r := refs[i]
+			if vc.cur == nil || r.b == vc.cur || r.b.Dominates(vc.cur) {
+				if _, isTuple := r.v.Type().(*types.Tuple); isTuple {
+					break
+				}
+				return sval{term: vc.val(r.v), typ: r.v.Type()}
+			}
+		}
 	}
 	if key, gd, ok := vc.ghostKey(e.Name); ok && (gd == nil || gd.Kind == "var") {
 		s := sval{term: env.st.get(key), typ: types.Typ[types.Int]}
@@ -559,6 +574,19 @@ func (vc *VC) trCall(e *ECall, env *specEnv, c *Clause) sval {
 	case "fact":
 		key, _, _ := vc.ghostKey(e.Fun)
 		return boolv(nestedSelect(env.st.get(key), args))
+	case "table":
+		key, _, _ := vc.ghostKey(e.Fun)
+		t := nestedSelect(env.st.get(key), args)
+		if gd.Result == "bool" {
+			return boolv(t)
+		}
+		var rt types.Type
+		if gd.Result == "int" {
+			rt = types.Typ[types.Int]
+		} else if gd.Result != "ref" && gd.Result != "any" && gd.Result != "" {
+			rt = vc.resolveType(gd.Result, vc.pkgTypes(gd.Pkg), c)
+		}
+		return sval{term: t, typ: rt}
 	case "func":
 		rs := "Int"
 		if gd.Result == "bool" {
